@@ -151,6 +151,9 @@ def analyse_client(case, ir):
         if op == "d" and n < len(busy) and busy[n] > 0:
             busy[n] -= 1
             active -= 1
+        if op == "D":
+            busy = [0] * len(busy)
+            active = 0
         # ---- sessions newly closed at this step
         newly = [k for k in range(min(nsess, len(flags))) if flags[k] and not closed[k]]
         if op == "x":
@@ -347,6 +350,9 @@ def gen_burst_then_seq(r):
             t = _avoid_ticks(t + r.choice([5, 50]), I); ops.append((t, "x%d" % (k - 1 - j)))
     for j in range(r.randint(2, k + 1)):
         t = _avoid_ticks(t + r.choice([20, 300]), I); ops.append((t, "r"))
+        if j % 2:
+            t = _avoid_ticks(t + 4, I); ops.append((t, "D"))
+            continue
         for q in range(k + j):
             t = _avoid_ticks(t + 4, I); ops.append((t, "d%d" % q))
     ops = with_ticks(I, ops, 0)
@@ -405,4 +411,7 @@ REAL_CASES = [
     # three overlapping requests dial three sessions; once their streams are finished, three sequential requests must
     # reuse them, newest first, without a fourth connection
     ("real-burst", ["4000", "8000", "1", "100:b3", "600:d0", "650:d1", "700:d2", "800:r", "900:d2", "1000:r", "1100:d1", "1200:r"]),
+    # the same, the application finishing ALL its streams between requests (whichever session served them): each of the
+    # three sequential requests is non-overlapping and must be served by one of the burst's sessions (seed C13-3)
+    ("real-burst-all-done", ["4000", "8000", "1", "100:b3", "600:D", "800:r", "900:D", "1000:r", "1100:D", "1200:r"]),
 ]
